@@ -209,6 +209,8 @@ type decCodec struct {
 	Ref    func(s string) (*P, bool)   // reference reader: value, well-formed
 	Enc    func(p *P) string           // reference encoder
 	ErrCls func(s string) string       // first grammar violation of a malformed text
+	Feat   func(s string) string       // optional: class of a reduced well-formed text
+	CST    bool                        // reduce well-formed texts on the concrete syntax tree
 	Calls  int64
 	Alpha  map[string][]string
 	Bases  func(quick bool) []string
@@ -218,7 +220,7 @@ type decCodec struct {
 var decCodecs = map[string]*decCodec{
 	"json": {Name: "json", Func: "json_decode", Fails: jsonDecFailures, Ref: jsonRef, Enc: jsonText, ErrCls: jsonErrClass, Calls: 2,
 		Alpha: map[string][]string{"chars": jsonChars, "tokens": jsonTokens}, Bases: jsonBases, Ladder: jsonLadders},
-	"ser": {Name: "ser", Func: "unserialize", Fails: serDecFailures, Ref: func(s string) (*P, bool) { p, v := phpUnser(s); return p, v == 1 }, Enc: phpSer, ErrCls: serErrClass, Calls: 1,
+	"ser": {Name: "ser", Func: "unserialize", Fails: serDecFailures, Ref: func(s string) (*P, bool) { p, v := phpUnser(s); return p, v == 1 }, Enc: phpSer, ErrCls: serErrClass, Feat: serFeatures, CST: true, Calls: 1,
 		Alpha: map[string][]string{"chars": serChars, "tokens": serTokens}, Bases: serBases, Ladder: serLadders},
 }
 
@@ -414,9 +416,20 @@ func (dc *decCodec) classify(e *env, cc [2]string, s string, reduce bool) (cls, 
 			if cc[0] == "json_decode(default)" && t.K != 'm' {
 				return "non-object-document", s
 			}
+			if dc.Feat != nil {
+				if f := dc.Feat(s); !strings.Contains(f, "plain-scalar") {
+					return f, s
+				}
+			}
 			return "nesting-ladder", s
 		}
 		failsTree := func(c *T) bool { return failsText(dc.Enc(c.canon())) }
+		if dc.CST {
+			if c := cstParse(s); c != nil {
+				rc := cstReduce(c, failsText)
+				return dc.Feat(rc.render()), rc.render()
+			}
+		}
 		cur := s
 		for round := 0; round < 4; round++ {
 			r2, _ := dc.Ref(cur)
